@@ -669,7 +669,7 @@ func c07Spec() propSpec {
 			phVariants:     []int{phFresh, phFresh, phForgedNext, phForgedNext, phForgedCur, phForgedNextPowers, phForgedNextPubKeysOnly, phForgedNextPubKeysOnly, phForgedCurPubKeysOnly, phAltNext},
 			pcpVariants:    []int{pcpExact},
 			voteCorr:       []int{vcNone},
-			replayVariants: []int{rvHonest, rvForeignSet, rvForeignPowers},
+			replayVariants: []int{rvHonest, rvForeignSet, rvForeignPowers, rvForeignPubKeysOnly, rvForgedNext, rvForgedNext},
 			minOps:         3, maxOps: 30,
 			dh: []int{0, 0, 0, 1}, dr: []int{0, 0, 0, 1},
 			valChange: []int{1, 2, 2, 3, 4},
